@@ -58,9 +58,9 @@ type FileSpec struct {
 
 type Case struct {
 	// Imports: the files import std packages and contain the triggers of the real
-	// checks. With -go below go1.22 the standard library itself fails to
+	// checks. With -go below go1.23 the standard library itself fails to
 	// type-check (known finding std-fails-under-low-go-flag), so generated cases
-	// only import std when -go is "module" or >= go1.22.
+	// only import std when -go is "module" or >= go1.23 (slices/iter.go needs range-over-func).
 	Imports bool   `json:"imports"`
 	// PrevGo, if set, is the -go value of an earlier run over the same files that shares the
 	// cache with the judged run (a stale cache entry must not make -go ineffective).
@@ -81,12 +81,12 @@ func genCase(t *rapid.T) *Case {
 	if rapid.IntRange(0, 2).Draw(t, "useflag") == 0 {
 		c.GoFlg = fmt.Sprintf("go1.%d", rapid.IntRange(16, 26).Draw(t, "goflag"))
 	}
-	c.Imports = c.GoFlg == "module" || version.Compare(c.GoFlg, "go1.22") >= 0
+	c.Imports = c.GoFlg == "module" || version.Compare(c.GoFlg, "go1.23") >= 0
 	if !c.Imports {
 		ev.Count("cases_without_std_imports_because_of_known_finding", 1)
 	}
 	if rapid.IntRange(0, 1).Draw(t, "hasprev") == 0 {
-		lo := 22
+		lo := 23
 		if !c.Imports {
 			lo = 16
 		}
@@ -94,7 +94,7 @@ func genCase(t *rapid.T) *Case {
 		if rapid.IntRange(0, 3).Draw(t, "prevmodule") == 0 {
 			c.PrevGo = "module"
 		}
-		if !c.Imports && c.PrevGo != "module" && version.Compare(c.PrevGo, "go1.22") < 0 {
+		if !c.Imports && c.PrevGo != "module" && version.Compare(c.PrevGo, "go1.23") < 0 {
 			// fine: nothing from std is type-checked for an import-free package
 		}
 	}
@@ -205,7 +205,7 @@ func evaluate(c *Case, dir string) (msg string, infra string) {
 	}
 	var sb strings.Builder
 	known := false
-	if c.PrevGo != "" && c.PrevGo != c.GoFlg && (!c.Imports || c.PrevGo == "module" || version.Compare(c.PrevGo, "go1.22") >= 0) {
+	if c.PrevGo != "" && c.PrevGo != c.GoFlg && (!c.Imports || c.PrevGo == "module" || version.Compare(c.PrevGo, "go1.23") >= 0) {
 		// earlier run with another -go on the same files and the same (per-process) cache; its results are not judged
 		rn.Run(rn.Options{Dir: dir, GoVersion: c.PrevGo}, checks, []string{"."}, func([]runner.Result) error { return nil })
 		ev.Count("cases_with_earlier_run_under_other_go_flag", 1)
@@ -221,7 +221,7 @@ func evaluate(c *Case, dir string) (msg string, infra string) {
 			}
 			ninit++
 			if r.Failed {
-				if c.Imports && c.GoFlg != "module" && version.Compare(c.GoFlg, "go1.22") < 0 && ev.IsKnown("std-fails-under-low-go-flag") {
+				if c.Imports && c.GoFlg != "module" && version.Compare(c.GoFlg, "go1.23") < 0 && ev.IsKnown("std-fails-under-low-go-flag") {
 					ev.KnownFinding("std-fails-under-low-go-flag", "")
 					known = true
 					return nil
